@@ -446,6 +446,58 @@ func runC08(c *CaseCtx) (res CaseResult) {
 			res.violate("C08", "results-differ", fmt.Sprintf("redefined function returned ids %v, the original target produced %v", got, tev.Outs), d2)
 		}
 		res.obs("redefined_calls_ok", 1)
+		// overlapping calls of the one redefined function, each with its own
+		// values: every call must yield the original function's results for
+		// ITS values (built functions share their value sets by design and
+		// are excluded; run-once outputs are shared by design)
+		anyBuiltOrOnce := s.Target.InForm == FormBuilt
+		for _, cv := range s.Convs {
+			if cv.InForm == FormBuilt || cv.Once {
+				anyBuiltOrOnce = true
+			}
+		}
+		if !anyBuiltOrOnce && len(decl) > 0 && len(s.Target.Out) > 0 && !s.Target.Fail && c.Idx%4 == 0 {
+			const G, N = 6, 12
+			var wg sync.WaitGroup
+			var mu sync.Mutex
+			seeds := make([]uint64, G)
+			for g := range seeds {
+				seeds[g] = r.Uint64()
+			}
+			go1 := make(chan struct{})
+			for g := 0; g < G; g++ {
+				wg.Add(1)
+				go func(g int) {
+					defer wg.Done()
+					lr := rand.New(&splitmix{s: seeds[g]})
+					<-go1
+					for k2 := 0; k2 < N; k2++ {
+						own := 100000 + 1000*g + k2
+						a2, _, _ := redefinedArgs(in.W, rf, own, lr)
+						oc := DoCall(nil, rf, a2)
+						mu.Lock()
+						res.Evals++
+						res.obs("overlapping_redefined_calls", 1)
+						if oc.Class == ClsPanic {
+							res.violate("C06", "panic/redefined-call-"+crashKey(oc.Panic), "overlapping redefined call panicked: "+oc.Panic, det(nil))
+						} else if oc.Err == nil && oc.Res.Len() > 0 {
+							if id, _ := idOfIface(oc.Res.Out(0)); id > 0 {
+								owners := map[int]bool{}
+								roots(in.W, id, map[int64]bool{}, owners)
+								for ocall := range owners {
+									if ocall != own && ocall != call && ocall != -1 {
+										res.violate("C08", "results-of-another-call", fmt.Sprintf("the redefined function, called with the values of call %d, returned a result computed from the values of call %d", own, ocall), det(map[string]interface{}{"inputs": labelsStr(decl)}))
+									}
+								}
+							}
+						}
+						mu.Unlock()
+					}
+				}(g)
+			}
+			close(go1)
+			wg.Wait()
+		}
 	}
 	res.max("max_chain", int64(rc.Chain))
 	res.Sample = map[string]interface{}{"case": rc.String()}
@@ -615,9 +667,10 @@ func runC09(c *CaseCtx) (res CaseResult) {
 			if e1 > 1 {
 				res.violate("C11", "once-reexecuted", fmt.Sprintf("run-once converter c%d executed %d times over the history", i, e1), det("history", ""))
 			}
-			if e2 := in2.W.Execs(i); e2 == 1 && e1 == 0 && len(redefined) == 0 {
-				res.violate("C09", "once-suppressed", fmt.Sprintf("run-once converter c%d ran in the twin but never in the world with Redefines", i), det("history", ""))
-			}
+			// (Whether a given run-once converter is used at all may differ
+			// between the two worlds: with several equal-cost derivations the
+			// choice follows map order. A memo poisoned by planning would
+			// surface as a fabricated id in the C01 monitor instead.)
 		}
 	}
 	res.obs("family."+fam, 1)
